@@ -462,7 +462,7 @@ func wsScript(rng *rand.Rand, msgs [][]byte, hostile bool) ([]byte, string) {
 		out = append(out, wsText(m)...)
 	}
 	if hostile {
-		switch rng.Intn(16) {
+		switch rng.Intn(19) {
 		case 0:
 			out = append(out, wsFrame(1, true, 0, false, []byte(`{}`), -1, 0)...)
 			class = "ws:unmasked"
@@ -515,6 +515,13 @@ func wsScript(rng *rand.Rand, msgs [][]byte, hostile bool) ([]byte, string) {
 		case 15:
 			out = append(out, rawBytes(rng, 40)...)
 			return out, "ws:raw-bytes"
+		default:
+			// a control frame header announcing a length a control frame
+			// cannot have, with or without payload bytes behind it
+			op := []byte{9, 10, 8}[rng.Intn(3)]
+			ann := ctlAnnounced[rng.Intn(len(ctlAnnounced))]
+			out = append(out, ctlHeaderFrame(op, rng.Intn(2) == 0, ann.n, ann.form, rng.Intn(2)*rng.Intn(200))...)
+			class = "ws:control-header-length"
 		}
 	}
 	switch rng.Intn(4) {
